@@ -121,8 +121,12 @@ def check(ctx, mps):
     ok = len(rd) == 1 and not rd[0].guard and q.conj(rd[0].rhs) == {('%d == %s' % (mps, wf), False), (we, False)}
     ctx.ob('C11.accept-when-room', 'USBInTransferManager.transfer_stream.ready' + tag, ok, rd[0].loc if rd else None,
            'input is accepted only while the write buffer is neither full nor ended: %s' % [a.rhs.canon() for a in rd])
-    clr = [a for a in ir.assigns if a.lhs.canon() == rf and q.is_zero(a.rhs)]
-    ok = len(clr) == 2 and all(q.has(a, ACK) or q.atoms(a) == {('self.discard', True)} for a in clr)
+    # every write that empties a buffer (through the read-side selection or addressed to one element of the pair) is under ACK
+    # or is the discard; the ACK one is there, and it empties the buffer just sent
+    elems = {x.strip() for x in rf[len('Array['):rf.rindex('][')].split(',')}
+    clr = [a for a in ir.assigns if (a.lhs.canon() == rf or a.lhs.canon() in elems) and q.is_zero(a.rhs)]
+    ok = bool(clr) and all(q.has(a, ACK) or q.atoms(a) == {('self.discard', True)} for a in clr) and \
+        any(q.has(a, ACK) and a.lhs.canon() == rf for a in clr) and any(q.atoms(a) == {('self.discard', True)} for a in clr)
     ctx.ob('C11.fill-cleared-on-ack', 'USBInTransferManager.read_fill_count.clear' + tag, ok, clr[0].loc if clr else None,
            'the sent buffer is released only under ACK (or discard): %s' % [q.fmt(a)[:160] for a in clr])
     inc = [a for a in ir.assigns if a.lhs.canon() == wf and a.rhs.canon() == '1 + ' + wf]
